@@ -8,29 +8,6 @@ namespace Minicbor.Dec
 
 /-! ### NoPanic for the accessors not covered by NoPanic.lean / SkipLocal.lean -/
 
-theorem NoPanic.bool : NoPanic Dec.bool := by
-  unfold Dec.bool
-  have := @NoPanic.typeMismatch Bool
-  nopanic'
-
-theorem NoPanic.f16 : NoPanic Dec.f16 := by
-  unfold Dec.f16
-  have := @NoPanic.typeMismatch Nat
-  nopanic'
-
-theorem NoPanic.f32 (half : Bool) : NoPanic (Dec.f32 half) := by
-  unfold Dec.f32
-  have := @NoPanic.typeMismatch Nat
-  have := NoPanic.f16
-  nopanic'
-
-theorem NoPanic.f64 (half : Bool) : NoPanic (Dec.f64 half) := by
-  unfold Dec.f64
-  have := @NoPanic.typeMismatch Nat
-  have := NoPanic.f16
-  have := NoPanic.f32 half
-  nopanic'
-
 theorem NoPanic.char : NoPanic Dec.char := by
   unfold Dec.char
   have := NoPanic.intAcc .u32
@@ -38,12 +15,6 @@ theorem NoPanic.char : NoPanic Dec.char := by
 
 theorem NoPanic.array : NoPanic Dec.array := NoPanic.container _
 theorem NoPanic.map : NoPanic Dec.map := NoPanic.container _
-
-theorem NoPanic.tag : NoPanic Dec.tag := by
-  unfold Dec.tag
-  have := @NoPanic.typeMismatch Nat
-  have := NoPanic.unsigned
-  nopanic'
 
 theorem NoPanic.null : NoPanic Dec.null := by
   unfold Dec.null
@@ -53,16 +24,6 @@ theorem NoPanic.null : NoPanic Dec.null := by
 theorem NoPanic.undefined : NoPanic Dec.undefined := by
   unfold Dec.undefined
   have := @NoPanic.typeMismatch Unit
-  nopanic'
-
-theorem NoPanic.simple : NoPanic Dec.simple := by
-  unfold Dec.simple
-  have := @NoPanic.typeMismatch Nat
-  nopanic'
-
-theorem NoPanic.datatype : NoPanic Dec.datatype := by
-  unfold Dec.datatype
-  have := NoPanic.typeOf
   nopanic'
 
 theorem NoPanic.bytesIter : NoPanic Dec.bytesIter := NoPanic.stringIter _
@@ -228,5 +189,133 @@ theorem Suffix.skip (alloc : Bool) : Suffix (Dec.skip alloc) := by
   unfold Dec.skip
   have := Suffix.skipLoop alloc
   suffix
+
+/-! ### EoiNil: at (or beyond) the end of the input every entry point reports end-of-input and
+    leaves the position alone -/
+
+theorem EoiNil.intAcc (t : IntTy) : EoiNil (Dec.intAcc t) := EoiNil.bind _ EoiNil.read
+theorem EoiNil.bool : EoiNil Dec.bool := EoiNil.bind _ EoiNil.read
+theorem EoiNil.f16 : EoiNil Dec.f16 := EoiNil.bind _ EoiNil.read
+theorem EoiNil.f32 (half : Bool) : EoiNil (Dec.f32 half) := EoiNil.bind _ EoiNil.current
+theorem EoiNil.f64 (half : Bool) : EoiNil (Dec.f64 half) := EoiNil.bind _ EoiNil.current
+theorem EoiNil.char : EoiNil Dec.char := EoiNil.bind _ (EoiNil.intAcc _)
+theorem EoiNil.bytes : EoiNil Dec.bytes := EoiNil.bind _ EoiNil.read
+theorem EoiNil.str : EoiNil Dec.str := EoiNil.bind _ EoiNil.read
+theorem EoiNil.stringIter (text : Bool) : EoiNil (Dec.stringIter text) := EoiNil.bind _ EoiNil.read
+theorem EoiNil.bytesIter : EoiNil Dec.bytesIter := EoiNil.stringIter _
+theorem EoiNil.strIter : EoiNil Dec.strIter := EoiNil.stringIter _
+theorem EoiNil.container (maj : Nat) : EoiNil (Dec.container maj) := EoiNil.bind _ EoiNil.read
+theorem EoiNil.array : EoiNil Dec.array := EoiNil.container _
+theorem EoiNil.map : EoiNil Dec.map := EoiNil.container _
+theorem EoiNil.tag : EoiNil Dec.tag := EoiNil.bind _ EoiNil.read
+theorem EoiNil.null : EoiNil Dec.null := EoiNil.bind _ EoiNil.read
+theorem EoiNil.undefined : EoiNil Dec.undefined := EoiNil.bind _ EoiNil.read
+theorem EoiNil.simple : EoiNil Dec.simple := EoiNil.bind _ EoiNil.read
+theorem EoiNil.datatype : EoiNil Dec.datatype := EoiNil.bind _ EoiNil.current
+theorem EoiNil.skip (alloc : Bool) : EoiNil (Dec.skip alloc) := by
+  cases alloc <;> rfl
+
+/-! ### consumption / size -/
+
+theorem Consumes.char : Consumes Dec.char 1 := by
+  unfold Dec.char
+  refine Consumes.bind (k := 0) (Consumes.intAcc _) (fun _ => ?_)
+  apply Suffix.consumes0; suffix
+
+theorem Consumes.array : Consumes Dec.array 1 := Consumes.container _
+theorem Consumes.map : Consumes Dec.map 1 := Consumes.container _
+
+theorem Consumes.null : Consumes Dec.null 1 := by
+  unfold Dec.null
+  apply Consumes.read_bind; intro b; apply Suffix.consumes0
+  have := @Suffix.typeMismatch Unit
+  suffix
+
+theorem Consumes.undefined : Consumes Dec.undefined 1 := by
+  unfold Dec.undefined
+  apply Consumes.read_bind; intro b; apply Suffix.consumes0
+  have := @Suffix.typeMismatch Unit
+  suffix
+
+/-- a successful `skip` consumes at least one byte (the loop runs at least once: `nrounds = 1`). -/
+theorem Consumes.skip (alloc : Bool) : Consumes (Dec.skip alloc) 1 := by
+  intro bs a r h
+  unfold Dec.skip at h
+  simp only [Dec.bind_run, Dec.remaining] at h
+  unfold Dec.skipLoop at h
+  have hrun : skipRunning alloc SkipSt.init = true := by cases alloc <;> rfl
+  simp only [hrun, Bool.not_true, Bool.false_eq_true, if_false, Dec.bind_run] at h
+  obtain ⟨x, r', harm, h⟩ := bind_ok_inv h
+  have h1 := Consumes.skipArm alloc _ bs x r' harm
+  cases x with
+  | cont s' =>
+    have := (Suffix.skipLoop alloc _ s').length_ok h
+    omega
+  | next s' =>
+    obtain ⟨o, r'', hp, h⟩ := bind_ok_inv h
+    have h2 := (Suffix.skipPost alloc s').length_ok hp
+    cases o with
+    | none => cases h; omega
+    | some s'' =>
+      have := (Suffix.skipLoop alloc _ s'').length_ok h
+      omega
+
+/-- the payload of a byte/text string is paid for by the bytes consumed (declared lengths that
+    exceed the input are an `end of input` error, never an allocation). -/
+theorem Sized.bytes : Sized (fun b : Bytes => 1 + b.length) Dec.bytes := by
+  unfold Dec.bytes
+  refine SizedBy.bindC Consumes.read (fun b => ?_)
+  refine SizedBy.ite (SizedBy.typeMismatch _ _ _) ?_
+  refine SizedBy.bindC (Consumes.unsigned _) (fun n => ?_)
+  refine SizedBy.bindC (Consumes.u64ToUsize _) (fun n => ?_)
+  exact SizedBy.readSlice _ _
+
+theorem Sized.str : Sized (fun b : Bytes => 1 + b.length) Dec.str := by
+  unfold Dec.str
+  refine SizedBy.bindC Consumes.read (fun b => ?_)
+  refine SizedBy.ite (SizedBy.typeMismatch _ _ _) ?_
+  refine SizedBy.bindC (Consumes.unsigned _) (fun n => ?_)
+  refine SizedBy.bindC (Consumes.u64ToUsize _) (fun n => ?_)
+  refine SizedBy.bind (SizedBy.readSlice _ _) (fun d => ?_)
+  exact SizedBy.ite (SizedBy.pure (Nat.le_refl _)) (SizedBy.fail _ _ _)
+
+theorem Sized.chunk (text : Bool) : Sized (fun b : Bytes => 1 + b.length) (if text then Dec.str else Dec.bytes) := by
+  cases text
+  · exact Sized.bytes
+  · exact Sized.str
+
+/-- chunks of an indefinite string: one unit per chunk plus its payload. -/
+theorem Sized.chunkLoop (text : Bool) (fuel : Nat) :
+    Sized (listSz fun b : Bytes => 1 + b.length) (Dec.chunkLoop text fuel) := by
+  induction fuel with
+  | zero => unfold Dec.chunkLoop; exact SizedBy.panic _ _
+  | succ f ih =>
+    unfold Dec.chunkLoop
+    refine SizedBy.bindC Consumes.current (fun b => ?_)
+    refine SizedBy.ite ?_ ?_
+    · exact SizedBy.bindC Consumes.read (fun _ => SizedBy.pure (Nat.zero_le _))
+    · refine SizedBy.bind (Sized.chunk text) (fun c => ?_)
+      intro bs cs r h
+      obtain ⟨cs', r', hl, h⟩ := bind_ok_inv h
+      have := ih bs cs' r' hl
+      cases h
+      simp at this ⊢; omega
+
+/-- `bytes_iter` / `str_iter` drained: the chunks collected (one unit per chunk plus its payload)
+    are paid for by consumed bytes. -/
+theorem Sized.stringIter (text : Bool) :
+    Sized (listSz fun b : Bytes => 1 + b.length) (Dec.stringIter text) := by
+  unfold Dec.stringIter
+  refine SizedBy.bindC Consumes.read (fun b => ?_)
+  refine SizedBy.ite (SizedBy.typeMismatch _ _ _) ?_
+  refine SizedBy.ite ?_ ?_
+  · refine SizedBy.bindC Consumes.remaining (fun r => ?_)
+    exact (Sized.chunkLoop text _).mono (by omega) (fun _ => Nat.le_refl _)
+  · refine SizedBy.bindC (Consumes.unsigned _) (fun n => ?_)
+    refine SizedBy.bindC (Consumes.u64ToUsize _) (fun n => ?_)
+    refine SizedBy.ite (SizedBy.pure (Nat.zero_le _)) ?_
+    refine SizedBy.bind (SizedBy.readSlice _ _) (fun d => ?_)
+    refine SizedBy.ite (SizedBy.fail _ _ _) (SizedBy.pure ?_)
+    simp
 
 end Minicbor.Dec
